@@ -26,6 +26,13 @@ string site_str(const Site &s) {
   return b;
 }
 
+struct Burst { ldb_t *db; B *b; int sync; };
+void burst_thread(void *arg) {
+  Burst *t = (Burst *)arg;
+  t->b->issued = true;
+  t->b->rc = db_write(t->db, t->b->ups, t->sync);
+}
+
 // Runs the plan in directory dir.  site == nullptr: fault-free counting run.
 void run_once(const Plan &p, const string &dir, const Site *site, simfs::Counters *counts_out) {
   std::vector<B> bs;
@@ -51,6 +58,25 @@ void run_once(const Plan &p, const string &dir, const Site *site, simfs::Counter
       case O_WRITE: {
         while (bi < bs.size() && bs[bi].opidx < (int)i) bi++;
         if (bi >= bs.size() || bs[bi].opidx != (int)i) break;
+        if (o.b > 0) {
+          // a burst: consecutive batches with the same burst id are issued by concurrent callers (group commit); they
+          // write disjoint keys, so every serial order gives the same contents
+          std::vector<Burst> th;
+          size_t j = i, bj = bi;
+          while (j < p.ops.size() && p.ops[j].kind == O_WRITE && p.ops[j].b == o.b && bj < bs.size() && bs[bj].opidx == (int)j) { Burst t; t.db = db; t.b = &bs[bj]; t.sync = p.ops[j].sync; th.push_back(t); j++; bj++; }
+          std::vector<int> tids;
+          for (size_t q = 1; q < th.size(); q++) tids.push_back(sim::spawn(burst_thread, &th[q]));
+          burst_thread(&th[0]);
+          for (int t : tids) sim::join(t);
+          any_fault = any_fault || !simfs::fired().empty();
+          for (auto &t : th) {
+            if (t.b->rc == LDB_OK) { for (auto &u : t.b->ups) { if (u.del) acked.erase(u.key); else acked[u.key] = mkval(u.tag, u.len, u.fill); } }
+            else if (!any_fault) violation("C12", "spurious_error", "%s: a concurrent write returns %s although no fault has been injected yet", where.c_str(), rcname(t.b->rc));
+          }
+          probe("concurrent_write_bursts");
+          i = j - 1; bi = bj - 1;
+          break;
+        }
         B &b = bs[bi];
         b.rc = db_write(db, b.ups, o.sync);
         b.issued = true;
@@ -212,6 +238,7 @@ Plan gen_ioerr(uint64_t seed, const string &prop) {
   int nops = r.chance(0.4) ? (int)r.range(4, 12) : (int)r.range(15, 60);
   int nkeys = (int)r.range(3, 12);
   uint64_t tag = 1; int nm = 0;
+  bool bursts = r.chance(0.45); int nburst = 0;
   for (int i = 0; i < nops; i++) {
     Op o; int c = (int)r.below(100);
     if (c < 62) {
@@ -227,7 +254,18 @@ Plan gen_ioerr(uint64_t seed, const string &prop) {
     else if (c < 97) o.kind = O_BACKUP;
     else o.kind = O_REOPEN;
     p.ops.push_back(o);
+    if (bursts && r.chance(0.12)) { // 2-4 concurrent callers, each with a marker and keys of its own
+      int k = (int)r.range(2, 4); nburst++;
+      for (int t = 0; t < k; t++) {
+        Op w; w.kind = O_WRITE; w.tid = t; w.b = nburst; w.sync = r.chance(0.3);
+        Upd m; m.key = marker_key(nm++); m.tag = tag++; m.len = 8; w.ups.push_back(m);
+        int n = (int)r.range(1, 3);
+        for (int q = 0; q < n; q++) { Upd u; char kb[32]; snprintf(kb, sizeof kb, "t%d/%02d", t, (int)r.below(4)); u.key = kb; u.del = r.chance(0.15); if (!u.del) { u.tag = tag++; u.fill = (int)r.below(2); u.len = r.chance(0.8) ? (uint32_t)r.range(50, 2000) : (uint32_t)r.range(20000, 50000); } w.ups.push_back(u); }
+        p.ops.push_back(w);
+      }
+    }
   }
+  if (nburst) p.sc = random_sched(r, true);
   p.seti("max_sites", g_thorough ? 400 : nops <= 12 ? 60 : 36);
   p.seti("noise", r.chance(0.4));
   return p;
